@@ -74,7 +74,13 @@ impl Effect for Distortion {
 					output.right / (1.0 + output.right.abs()),
 				),
 			};
-			output /= drive;
+			// a drive of -60 dB or less is an amplitude of exactly 0, and 0 / 0 is NaN;
+			// the limit of clip(x * drive) / drive for drive -> 0 is the unchanged signal
+			if drive == 0.0 {
+				output = *frame;
+			} else {
+				output /= drive;
+			}
 
 			*frame = output * mix.sqrt() + *frame * (1.0 - mix).sqrt()
 		}
